@@ -946,6 +946,126 @@ example : ALV.Gen.C01.elementwise.run ⟨n!"log", n!"x", some 0, [], [(n!"base",
       [kwMarker n!"base", .atom 9, kwMarker n!"x"] [] (.list 1 []))) := by
   rw [src_elementwise_is_model]; rfl
 
+/-! ### C01.9 — operand kinds between "iterable" and "scalar"
+
+An operand is described by what can be OBSERVED about it (`Operand`: `isinstance(·, Iterable)`, whether `iter()`
+works, `__getitem__`, `__len__`, what `iter()` would deliver); the model's rule `Operand.toVal` / `toPy` consults
+`isIgnored`, then exactly `isIterableABC`. -/
+
+/-- every specified dunder is found under its own name -/
+theorem specLookup_self : ∀ sp ∈ specTable, specLookup sp.dname = some sp := by decide +kernel
+
+/-- **C01.9a** the classification: an operand of no ignored class that is no `Iterable` is ONE element,
+whatever `iter()` does on it (indexable objects: vectors, `Poly`, `TableLookup`, `__len__` + `__getitem__`);
+an `Iterable` is read through `iter()` (strings, bytes, dicts, sets, unsized classes with `__iter__` included). -/
+theorem operand_class (o : Operand) (hi : o.isIgnored = false) :
+    (o.isIterableABC = false → o.toVal = .scalar o.self ∧ o.toPy = .scalar o.self) ∧
+    (o.isIterableABC = true → o.toVal = .iterable false (.list o.tag o.items) ∧ o.toPy = .iterable o.tag o.items) := by
+  constructor <;> intro ha <;> simp [Operand.toVal, Operand.toPy, hi, ha]
+
+/-- … so the predicates the builders do not consult do not matter: two objects that agree on `self`,
+`isIgnored`, `isIterableABC = false` are the same operand -/
+theorem operand_iter_irrelevant (o o' : Operand) (hs : o.self = o'.self) (hi : o.isIgnored = o'.isIgnored)
+    (ha : o.isIterableABC = false) (ha' : o'.isIterableABC = false) : o.toVal = o'.toVal ∧ o.toPy = o'.toPy := by
+  simp [Operand.toVal, Operand.toPy, hs, hi, ha, ha']
+
+/-- the leaf evaluates to the classified value -/
+theorem operand_eval (tbl : List (Name × Dunder)) (o : Operand) : evalPy tbl o.toPy = .ok o.toVal := by
+  unfold Operand.toPy Operand.toVal
+  cases o.isIgnored <;> cases o.isIterableABC <;> rfl
+
+/-- **C01.9b** non-iterable operands are repeated for every position: for each of the 32 binary operator methods
+(plain, reflected, comparisons incl. `==`, `@`), every well-typed Stream expression `s` and every operand `o` that
+is no `Iterable` — `iter(o)` may well succeed —, position `i` of `s <op> o` is the operator applied to position `i` of
+`s` and to `o` ITSELF (operands swapped for a reflected method), and the result ends exactly when `s` ends. -/
+theorem operand_repeated (sp : DunderSpec) (hsp : sp ∈ specTable) (h2 : sp.arity = 2) (s : Py)
+    (hs : s.sort = some .stream) (o : Operand) (hi : o.isIgnored = false) (ha : o.isIterableABC = false) :
+    ∃ it, evalPy genInstalled (.bin sp.dname s o.toPy) = .ok (.iterable true it) ∧
+      (∀ n i, (it.run n)[i]? = if i < n then
+          (s.at i).map (fun x => Term.app sp.fn (if sp.reflected then [o.self, x] else [x, o.self])) else none) ∧
+      (∀ n, Len.fin (it.run n).length = (Len.fin n).min s.len) := by
+  have hpy : o.toPy = .scalar o.self := ((operand_class o hi).1 ha).2
+  have hl := specLookup_self sp hsp
+  have hsort : (Py.bin sp.dname s (.scalar o.self)).sort = some .stream := by
+    simp [Py.sort, hs, hl, h2]
+  rw [hpy]
+  obtain ⟨it, hv, hg⟩ := eval_get _ hsort
+  obtain ⟨it', hv', hlen⟩ := eval_len _ hsort
+  rw [hv] at hv'
+  cases hv'
+  refine ⟨it, hv, fun n i => ?_, fun n => ?_⟩
+  · rw [hg n i]
+    by_cases hin : i < n
+    · simp only [hin, if_true, Py.at, hl]
+      cases s.at i <;> rfl
+    · simp [hin]
+  · rw [hlen n]
+    simp [Py.len]
+
+/-- **C01.9c** the same read off the REGENERATED builder bodies: the programs the translator wrote from
+`StreamMeta.__binary__` / `__rbinary__` give, on such an operand, `map(lambda a: f(a, o), self)` resp.
+`map(lambda a: f(o, a), self)` — not a `map` over `iter(o)`. -/
+theorem src_operand_repeated (f : Name) (self : Iter) (o : Operand) (hi : o.isIgnored = false)
+    (ha : o.isIterableABC = false) :
+    ALV.Gen.C01.binary.run2 f self o.toVal = .ok (.iterable true (.mapR f self o.self)) ∧
+    ALV.Gen.C01.rbinary.run2 f self o.toVal = .ok (.iterable true (.mapL f o.self self)) := by
+  rw [src_binary_is_model, src_rbinary_is_model, ((operand_class o hi).1 ha).1]
+  exact ⟨rfl, rfl⟩
+
+/-- non-vacuity: a `Vec2`-like value (`__getitem__`, `__len__`, no `__iter__`: `iter()` would deliver its two
+components) on the right of `*` and on the left of `@` over a Stream of 3 items: 3 items, each with the WHOLE object -/
+def demoVec : Operand :=
+  { self := .atom 9, isIgnored := false, isIterableABC := false, iterWorks := true, hasGetItem := true, hasLen := true,
+    tag := 5, items := [.atom 90, .atom 91] }
+
+example : ∃ it, evalPy genInstalled (.bin n!"__mul__" (.stream1 (.iterable 0 [.atom 1, .atom 2, .atom 3])) demoVec.toPy)
+      = .ok (.iterable true it) ∧
+    it.run 10 = [.app n!"__mul__" [.atom 1, .atom 9], .app n!"__mul__" [.atom 2, .atom 9], .app n!"__mul__" [.atom 3, .atom 9]] :=
+  ⟨_, rfl, rfl⟩
+example : ∃ it, evalPy genInstalled (.bin n!"__rmatmul__" (.stream1 (.iterable 0 [.atom 1, .atom 2, .atom 3])) demoVec.toPy)
+      = .ok (.iterable true it) ∧
+    it.run 10 = [.app n!"__matmul__" [.atom 9, .atom 1], .app n!"__matmul__" [.atom 9, .atom 2], .app n!"__matmul__" [.atom 9, .atom 3]] :=
+  ⟨_, rfl, rfl⟩
+/-- the same object, were it an `Iterable`, would be zipped component by component: 2 items -/
+example : ∃ it, evalPy genInstalled (.bin n!"__mul__" (.stream1 (.iterable 0 [.atom 1, .atom 2, .atom 3]))
+      { demoVec with isIterableABC := true }.toPy) = .ok (.iterable true it) ∧
+    it.run 10 = [.app n!"__mul__" [.atom 1, .atom 90], .app n!"__mul__" [.atom 2, .atom 91]] :=
+  ⟨_, rfl, rfl⟩
+
+/-! ### C01.10 — container kinds of the broadcast functions carry the class identity
+
+`CKind.sub base cls` is the proper subclass number `cls` of a builtin container (or a user `Sequence`) whose
+constructor takes one iterable: `type(arg)(data)` gives back THAT class. -/
+
+/-- **C01.10a** every kind that is neither scalar / str, nor lazy, nor a Stream comes back as ITSELF — the
+argument's own class, for subclasses too (not the builtin base `isinstance` sees behind it) -/
+theorem elementwise_same_class (c : ECall) (k : CKind) (t : Nat) (xs : List Term) (ha : c.arg = .sized k t xs)
+    (hw : c.arg.wf = true) (hf : c.found = true) :
+    (elementwise c).kind = .same k ∧ bcastKind k = .same k := by
+  obtain ⟨left, he, _⟩ := elementwise_cast c k t xs ha hw hf
+  refine ⟨by rw [he]; rfl, ?_⟩
+  rw [ha] at hw
+  cases k <;> simp_all [BArg.wf, CKind.isIterable, CKind.isStr, CKind.isSomeGen, CKind.isStream, bcastKind]
+
+/-- **C01.10b** subclasses: whatever the base (list, tuple, set, frozenset, deque, user Sequence) and the class,
+by position or by keyword: the result is of class `sub base cls` and holds the function applied to every item -/
+theorem elementwise_subclass (c : ECall) (b : CBase) (cls t : Nat) (xs : List Term)
+    (ha : c.arg = .sized (.sub b cls) t xs) (hf : c.found = true) :
+    ∃ left, elementwise c = .cast (.sub b cls) (xs.map c.callWith) left ∧ left.unread = [(t, 0)] ∧
+      (elementwise c).kind ≠ .same b.builtin := by
+  have hw : c.arg.wf = true := by rw [ha]; rfl
+  obtain ⟨left, he, hu⟩ := elementwise_cast c _ t xs ha hw hf
+  refine ⟨left, he, hu, ?_⟩
+  rw [he]
+  cases b <;> simp [BOut.kind, CBase.builtin]
+
+/-- non-vacuity: `class Vector(tuple)` (class number 3) by keyword -/
+example : (elementwise ⟨n!"sqrt", n!"x", some 0, [], [(n!"x", .atom 0)], .sized (.sub .tuple 3) 1 [.atom 1, .atom 2]⟩).kind =
+    .same (.sub .tuple 3) := by rfl
+example : ALV.Gen.C01.elementwise.run ⟨n!"sqrt", [], none, [.atom 0], [], .sized (.sub .tuple 3) 1 [.atom 1, .atom 2]⟩ =
+    some (.cast (.sub .tuple 3) [.app n!"sqrt" [.atom 1], .app n!"sqrt" [.atom 2]] (.mapc true n!"sqrt" [] [] (.list 1 []))) := by
+  rw [src_elementwise_is_model]; rfl
+
 end ALV.Props.C01
 
 #write_audit "C01"
